@@ -47,7 +47,8 @@ def plan(tier, seed):
 def minimums(tier):
     return {"ud.calls_checked": 1500, "src.calls_checked": 800, "imports.pels_checked": 2000, "containment.pairs": 500,
             "noplugins.decodes": 500, "noplugins.subprocess_runs": 100, "m2c00.routing_checked": 900,
-            "osrc.component_routing": 200, "osrc.bc_routing": 40, "callout.calls_checked": 100}
+            "osrc.component_routing": 200, "osrc.bc_routing": 40, "callout.calls_checked": 100,
+            "src.parser_module_fails_at_import": 150}
 
 
 def ud_module(creator, comp):
@@ -101,7 +102,7 @@ def src_expected_call(sec):
 
 
 def build_pel(rng, u, reg, plugins):
-    creator = rng.choice("OOOOBBMXH")
+    creator = rng.choice("OOOOBBMXHYZ")      # Y, Z: SRC parser modules that fail while being imported
     secs = []
     if rng.random() < 0.75:
         t = rng.choice(["BD", "BD", "BD", "BC", "11", "B7"])
@@ -239,7 +240,8 @@ def short(c):
 def containment(ctx, pel, rng, base_doc):
     """A failing parser affects only its own section: flip every failing fixture section to behaviour OK and compare the rest."""
     failing = [i for i, s in enumerate(pel.sections) if s.kind in ("UD", "ED") and
-               s.m.get("flavor") in ("fx_raise", "fx_none", "fx_importerror", "fx_keyerror")]
+               s.m.get("flavor") in ("fx_raise", "fx_none", "fx_importerror", "fx_keyerror", "fx_release_raise",
+                                   "fx_release_none")]
     fsrc = [i for i, s in enumerate(pel.sections) if s.kind == "SRC" and src_expected_call(s)[0] and s.m["ascii"][7:8] in "EFAB"]
     if not failing and not fsrc:
         return
@@ -414,6 +416,8 @@ def run(spec, ctx):
     for i in range(spec["n"]):
         plugins = rng.random() < 0.8
         pel = build_pel(rng, u, reg, plugins)
+        if plugins and pel.creator in "YZ" and any(x.kind == "SRC" for x in pel.sections):
+            ctx.count("src.parser_module_fails_at_import")
         o = check_pel(ctx, pel, plugins, rng)
         if o is not None and plugins:
             containment(ctx, pel, rng, o.doc)
